@@ -223,10 +223,15 @@ def talk(s, conn, timeout=8.0):
         else:
             so.sendall(b"".join(render(rq) for rq in reqs))
         if not closed:
-            so.settimeout(0.6 if mode != "slow" else 1.0)
+            quiet = 0.6 if mode != "slow" else 1.0
+            so.settimeout(quiet)
+            t_wait = time.time()
             while True:
                 try: c = so.recv(65536 if mode not in ("slow", "tiny-rcvbuf") else 1500)
-                except socket.timeout: break
+                except socket.timeout:
+                    # nothing at all yet: a loaded machine (or the fault shim's retries) may need longer for the first byte than for the gaps between bytes
+                    if not data and time.time() - t_wait < 5.0: continue
+                    break
                 except ConnectionResetError: closed = True; break
                 if not c: closed = True; break
                 data += c
